@@ -17,7 +17,7 @@ WORKERS = int(os.environ.get("VERIF_WORKERS", "8"))
 
 
 class Slice:
-    def __init__(self, name, terminals, ops, maxnodes, lits=(), zeros=(), idx=(10, 11), maxrank=2, maxdim=2, finalops=(), gdim=2, nenv=2, complex_env=False, small=False, simulate=None, depth=None, square_gram=(), tiny=False, levels=(), only_final=False, mikinds=("fixed", "name", "slice"), replacements=()):
+    def __init__(self, name, terminals, ops, maxnodes, lits=(), zeros=(), idx=(10, 11), maxrank=2, maxdim=2, finalops=(), gdim=2, nenv=2, complex_env=False, small=False, simulate=None, depth=None, square_gram=(), tiny=False, levels=(), only_final=False, mikinds=("fixed", "name", "slice"), replacements=(), jets=None):
         self.name = name
         self.terminals = terminals
         self.ops = set(ops)
@@ -40,6 +40,7 @@ class Slice:
         self.only_final = only_final
         self.mikinds = tuple(mikinds)
         self.replacements = list(replacements)
+        self.jets = jets  # dict(mode=, ndir=, seeds=, opts=, gateaux=) -> derivative semantics (spec/jets/CQ.tla)
         for l in self.levels:
             self.ops |= l - self.finalops
 
@@ -83,7 +84,14 @@ def run_slice(ctx, sl, pid, on_mismatch=None, accept=None, timeout=1500):
 
 
 def _tlc_phase(seed, sl, timeout, workers):
-    pool = Pool(sl.terminals, nenv=sl.nenv, seed=seed + hash_name(sl.name), complex_env=sl.complex_env, small=sl.small, square_gram=sl.square_gram, tiny=sl.tiny)
+    if sl.jets:
+        from .envs import JetPool
+
+        j = sl.jets
+        pool = JetPool(sl.terminals, j["mode"], ndir=j.get("ndir", 0), seeds=j.get("seeds"), nenv=sl.nenv, seed=seed + hash_name(sl.name), tiny=True, complex_env=sl.complex_env, opts=j.get("opts"))
+        pool.gateaux = j.get("gateaux", [])
+    else:
+        pool = Pool(sl.terminals, nenv=sl.nenv, seed=seed + hash_name(sl.name), complex_env=sl.complex_env, small=sl.small, square_gram=sl.square_gram, tiny=sl.tiny)
     for src, img in sl.replacements:
         pool.add_replacement(src, img)
     name = "MC_" + sl.name.replace("-", "_")
@@ -92,6 +100,8 @@ def _tlc_phase(seed, sl, timeout, workers):
     kw = {}
     if sl.simulate:
         kw = dict(simulate=f"num={max(1, sl.simulate // workers)}", depth=sl.depth or (sl.maxnodes + 1), seed=seed + 1)
+    if sl.jets:
+        kw["lib_first"] = [os.path.join(os.path.dirname(os.path.dirname(os.path.abspath(__file__))), "spec", "jets")]
     res = tlc.run(name, cfg, mc_text=mc, mc_name=name, workers=workers, timeout=timeout, coverage=False, **kw)
     return pool, res
 
